@@ -60,19 +60,19 @@ Lemma tree_regs_SB : forall f a k subs r ra sf,
 Proof. reflexivity. Qed.
 
 Lemma tree_regs_spec : forall o0,
-  (forall p o, In (p, o) (fst (tree_regs o0)) -> In o (deep o0) /\ shapeF p o) /\
+  (forall p o, In (p, o) (fst (tree_regs o0)) -> In o (deep o0) /\ shapeF p o /\ In p (fst (tree_claims o0))) /\
   (forall k o, In (k, o) (snd (tree_regs o0)) -> In o (deep o0) /\ shapeS k o /\ In k (snd (tree_claims o0))).
 Proof.
   induction o0 as [q r e|p c f a k subs r cr ra sf IH|f a k subs r ra sf IH] using op_ind'.
   - split; intros ? ? [].
-  - assert (L : (forall p0 o, In (p0, o) (fst (rll subs)) -> In o (deepl subs) /\ shapeF p0 o) /\
+  - assert (L : (forall p0 o, In (p0, o) (fst (rll subs)) -> In o (deepl subs) /\ shapeF p0 o /\ In p0 (fst (cll subs))) /\
                 (forall k0 o, In (k0, o) (snd (rll subs)) -> In o (deepl subs) /\ shapeS k0 o /\ In k0 (snd (cll subs)))).
     { clear -IH. induction subs as [|x rest IHl]; [split; intros ? ? []|].
       inversion IH; subst. destruct (IHl H2) as [L1 L2]. destruct H1 as [X1 X2].
       rewrite rll_cons, cll_cons. cbn [fst snd deepl flat_map]. split.
       - intros p0 o Hin. apply in_app_or in Hin. destruct Hin as [Hin|Hin].
-        + destruct (X1 _ _ Hin). split; [apply in_or_app; left; assumption|assumption].
-        + destruct (L1 _ _ Hin). split; [apply in_or_app; right; assumption|assumption].
+        + destruct (X1 _ _ Hin) as [A [B C]]. split; [apply in_or_app; left; assumption|]. split; [assumption|apply in_or_app; left; assumption].
+        + destruct (L1 _ _ Hin) as [A [B C]]. split; [apply in_or_app; right; assumption|]. split; [assumption|apply in_or_app; right; assumption].
       - intros k0 o Hin. apply in_app_or in Hin. destruct Hin as [Hin|Hin].
         + destruct (X2 _ _ Hin) as [A [B C]]. split; [apply in_or_app; left; assumption|]. split; [assumption|].
           apply in_or_app; left; assumption.
@@ -80,21 +80,21 @@ Proof.
           apply in_or_app; right; assumption. }
     destruct L as [L1 L2]. rewrite tree_regs_BF, tree_claims_BF. destruct sf.
     + split.
-      * intros p0 o Hin. destruct (L1 _ _ Hin). split; [right; assumption|assumption].
+      * intros p0 o Hin. destruct (L1 _ _ Hin) as [A [B C]]. split; [right; assumption|]. split; assumption.
       * intros k0 o Hin. destruct (L2 _ _ Hin) as [A [B C]]. split; [right; assumption|]. split; assumption.
     + cbn [fst snd]. split.
       * intros p0 o [Hin|Hin].
-        -- inversion Hin; subst. split; [left; reflexivity|]. repeat eexists.
-        -- destruct (L1 _ _ Hin). split; [right; assumption|assumption].
+        -- inversion Hin; subst. split; [left; reflexivity|]. split; [repeat eexists|left; reflexivity].
+        -- destruct (L1 _ _ Hin) as [A [B C]]. split; [right; assumption|]. split; [assumption|right; assumption].
       * intros k0 o Hin. destruct (L2 _ _ Hin) as [A [B C]]. split; [right; assumption|]. split; assumption.
-  - assert (L : (forall p0 o, In (p0, o) (fst (rll subs)) -> In o (deepl subs) /\ shapeF p0 o) /\
+  - assert (L : (forall p0 o, In (p0, o) (fst (rll subs)) -> In o (deepl subs) /\ shapeF p0 o /\ In p0 (fst (cll subs))) /\
                 (forall k0 o, In (k0, o) (snd (rll subs)) -> In o (deepl subs) /\ shapeS k0 o /\ In k0 (snd (cll subs)))).
     { clear -IH. induction subs as [|x rest IHl]; [split; intros ? ? []|].
       inversion IH; subst. destruct (IHl H2) as [L1 L2]. destruct H1 as [X1 X2].
       rewrite rll_cons, cll_cons. cbn [fst snd deepl flat_map]. split.
       - intros p0 o Hin. apply in_app_or in Hin. destruct Hin as [Hin|Hin].
-        + destruct (X1 _ _ Hin). split; [apply in_or_app; left; assumption|assumption].
-        + destruct (L1 _ _ Hin). split; [apply in_or_app; right; assumption|assumption].
+        + destruct (X1 _ _ Hin) as [A [B C]]. split; [apply in_or_app; left; assumption|]. split; [assumption|apply in_or_app; left; assumption].
+        + destruct (L1 _ _ Hin) as [A [B C]]. split; [apply in_or_app; right; assumption|]. split; [assumption|apply in_or_app; right; assumption].
       - intros k0 o Hin. apply in_app_or in Hin. destruct Hin as [Hin|Hin].
         + destruct (X2 _ _ Hin) as [A [B C]]. split; [apply in_or_app; left; assumption|]. split; [assumption|].
           apply in_or_app; left; assumption.
@@ -102,10 +102,10 @@ Proof.
           apply in_or_app; right; assumption. }
     destruct L as [L1 L2]. rewrite tree_regs_SB, tree_claims_SB. destruct sf.
     + split.
-      * intros p0 o Hin. destruct (L1 _ _ Hin). split; [right; assumption|assumption].
+      * intros p0 o Hin. destruct (L1 _ _ Hin) as [A [B C]]. split; [right; assumption|]. split; assumption.
       * intros k0 o Hin. destruct (L2 _ _ Hin) as [A [B C]]. split; [right; assumption|]. split; assumption.
     + cbn [fst snd]. split.
-      * intros p0 o Hin. destruct (L1 _ _ Hin). split; [right; assumption|assumption].
+      * intros p0 o Hin. destruct (L1 _ _ Hin) as [A [B C]]. split; [right; assumption|]. split; assumption.
       * intros k0 o [Hin|Hin].
         -- inversion Hin; subst. split; [left; reflexivity|]. split; [repeat eexists|left; reflexivity].
         -- destruct (L2 _ _ Hin) as [A [B C]]. split; [right; assumption|]. split; [assumption|right; assumption].
